@@ -180,7 +180,7 @@ def generate_contents(filepath, compressor="bz2", parallelize=True):
     try:
         tar_handle = tarfile.TarFile(name=filepath, fileobj=handle, mode="r")
     except tarfile.ReadError as e:
-        if not e.message.endswith("empty header"):
+        if not str(e).endswith(("empty header", "empty file")):
             raise
         tar_handle = []
     return convert_archive(tar_handle)
